@@ -22,6 +22,21 @@ if TYPE_CHECKING:  # pragma: no cover
     from formulaic.model_spec import ModelSpec
 
 
+def _with_pandas_index(
+    df: pandas.DataFrame, data: Any, drop_rows: Sequence[int]
+) -> pandas.DataFrame:
+    """
+    When the input data is a pandas data frame, its index labels are kept on
+    pandas output (as under the pandas materializer).
+    """
+    native = nw.to_native(data, pass_through=True)
+    if isinstance(native, pandas.DataFrame):
+        index = native.index.delete(list(drop_rows))
+        if len(index) == len(df):
+            df.index = index
+    return df
+
+
 class NarwhalsMaterializer(FormulaMaterializer):
     REGISTER_NAME = "narwhals"
     REGISTER_INPUTS: Sequence[str] = (
@@ -183,7 +198,7 @@ class NarwhalsMaterializer(FormulaMaterializer):
                 return nw.from_native(values, eager_only=True)
             if spec.output == "numpy":
                 return values
-            return pandas.DataFrame(values)
+            return _with_pandas_index(pandas.DataFrame(values), self.data, drop_rows)
 
         # Otherwise, concatenate columns into model matrix
         if spec.output == "sparse":
@@ -200,8 +215,7 @@ class NarwhalsMaterializer(FormulaMaterializer):
                 return combined
             return combined.to_native()
         if spec.output == "pandas":
-            df = combined.to_pandas()
-            return df
+            return _with_pandas_index(combined.to_pandas(), self.data, drop_rows)
         if spec.output == "numpy":
             return combined.to_numpy()
         raise ValueError(f"Invalid output type: {spec.output}")
